@@ -494,8 +494,10 @@ class BaseInput:
             return
 
         try:
+            # index_col=False: rows with more fields than the header (a trailing tab) must not turn the first column into
+            # the index and shift every other column one to the left.
             self._dataframe = pd.read_csv(file, delimiter='\t', header=pandas_header, skip_blank_lines=True,
-                                          dtype=str, keep_default_na=True, na_values=("", "null"))
+                                          dtype=str, keep_default_na=True, na_values=("", "null"), index_col=False)
             # Replace NaN values with a known value
             self._dataframe = self._dataframe.fillna("n/a")
         except pd.errors.EmptyDataError:
